@@ -6,12 +6,14 @@
   `gc2gc` between equal γ is truncation, so for the vocoder's equal-α, equal-γ call `mgc2mgc` reduces
   to normalisation round trips; `ignorm ∘ gnorm = id` when the power function is; the MGLSA filter is
   the `stage`-fold cascade of one section.
-  Not proved: that the cascade output of `lsp2lpc` is the coefficient list of ½(P+Q) (stated in
-  DESIGN.md as a stretch goal), and the analytic clause |ln|H| − ln(K/|A|^s)| ≤ 0.001 neper, decided on
+  `lsp2lpc` returns exactly the coefficient list of A(z) = ½(P(z)+Q(z)) built by polynomial multiplication of
+  the second-order sections (even and odd orders) — `Jb/Proofs/LspPoly.lean`.
+  Not proved: the analytic clause |ln|H| − ln(K/|A|^s)| ≤ 0.001 neper, decided on
   every run against A(z) built by polynomial multiplication in the driver.
 -/
 import Jb.Proofs.Cepstrum
 import Jb.Proofs.LspStab
+import Jb.Proofs.LspPoly
 
 set_option linter.unusedSectionVars false
 
@@ -71,5 +73,10 @@ theorem stage_gamma (nmcp nlpf stage : Nat) (hs : stage ≠ 0) (lg : Bool) (rate
     check unchanged, so the filter is driven by exactly the given line spectral frequencies. -/
 theorem well_separated_unchanged (v : List K) (h : LspStable v) : checkLspStability v = v :=
   checkLspStability_id v h
+
+/-- **`lsp2lpc` = ½(P + Q)**: the LPC polynomial whose line spectral frequencies are the given ones. -/
+theorem lpc_polynomial (b : Bool) (g : K) (lsp : List K) :
+    lsp2lpc ⟨b, true⟩ (g :: lsp) = lspRefPoly lsp :=
+  lsp2lpc_poly b g lsp
 
 end Jb.C13
